@@ -74,6 +74,8 @@ fn new_tr<'a>(idx: &'a Index, reg: &'a Registry, cur: &'a FnEntry) -> Tr<'a> {
         pattern_generics: Vec::new(),
         type_subst: HashMap::new(),
         mut_self: false,
+        abstract_fns: HashMap::new(),
+        abstract_consts: Vec::new(),
     }
 }
 
@@ -266,6 +268,30 @@ fn translate_fn(idx: &Index, reg: &Registry, t: &Target, texts: &BTreeMap<String
         }
         tr.generics.clear();
     }
+    // abstracted callees: their signatures, read with the callee's generic parameter identified with ours by name
+    let mut abs_sig = String::new();
+    for a in &t.abstract_fns {
+        let cands = idx.fn_by_name.get(a).cloned().unwrap_or_default();
+        let ci = cands.iter().copied().find(|i| idx.fns[*i].self_ty.is_none()).ok_or_else(|| format!("abstract function `{}` not found", a))?;
+        let cal = idx.fns[ci].clone();
+        let mut ptys = Vec::new();
+        for inp in &cal.sig.inputs {
+            if let syn::FnArg::Typed(pt) = inp {
+                ptys.push(tr.conv_ty(&pt.ty));
+            }
+        }
+        let rty = match &cal.sig.output {
+            syn::ReturnType::Default => Ty::Unit,
+            syn::ReturnType::Type(_, t) => tr.conv_ty(t),
+        };
+        let mut txt = String::new();
+        for p in &ptys {
+            txt.push_str(&tr.lean_ty(p)?);
+            txt.push_str(" → ");
+        }
+        write!(abs_sig, " ({} : {}Res {})", lean_ident(a), txt, tr.lean_ty(&rty)?).unwrap();
+        tr.abstract_fns.insert(a.clone(), (ptys, rty));
+    }
     // parameters
     let mut params: Vec<(String, Ty)> = Vec::new();
     for inp in &f.sig.inputs {
@@ -354,6 +380,10 @@ fn translate_fn(idx: &Index, reg: &Registry, t: &Target, texts: &BTreeMap<String
         sig.push_str(" (fuel : Nat)");
     } else if tr.uses_fuel {
         return Err("internal: fuel needed but not registered".into());
+    }
+    sig.push_str(&abs_sig);
+    for (c, ty) in &tr.abstract_consts {
+        write!(sig, " ({} : {})", lean_ident(c), ty).unwrap();
     }
     for (n, t) in &params {
         write!(sig, " ({} : {})", lean_ident(n), tr.lean_ty(t).map_err(|e| format!("parameter {}: {}", n, e))?).unwrap();
